@@ -60,10 +60,22 @@ def expected_for(rows, S, T, mode, groupkey="k"):
     return [g]
 
 
-def judge(ctx, unit, data, base_args, combos):
-    """combos: list of (S, T, mode).  Runs the unlimited pipeline once and each combo once."""
+def judge(ctx, unit, data, base_args, combos, pieces=None):
+    """combos: list of (S, T, mode).  Runs the unlimited pipeline once and each combo once.
+    pieces: None = the input arrives on stdin; else a list of byte strings given to jawk as that many files (cut between
+    records), which must not change anything."""
     st = ctx.stats
-    base = core.Case(base_args, data)
+    if pieces:
+        files = [("p%d.json" % (len(pieces) - i), p) for i, p in enumerate(pieces)]      # given order != lexicographic order
+        fargs = ["@D@/" + n for n, _ in files]
+        st.count("units_delivered_as_files")
+
+        def mk(a):
+            return core.Case(fargs + list(a), b"", files=files)
+    else:
+        def mk(a):
+            return core.Case(a, data)
+    base = mk(base_args)
     cases = [base]
     for S, T, mode in combos:
         a = list(base_args) + limit_args(S, T)
@@ -71,7 +83,7 @@ def judge(ctx, unit, data, base_args, combos):
             a += ["--group-by", "." + unit.get("groupkey", "k")]
         elif mode == "merge":
             a += ["--merge"]
-        cases.append(core.Case(a, data))
+        cases.append(mk(a))
     obs = ctx.drv.run_many(cases)
     for c, o in zip(cases, obs):
         if o.result != "ok":
@@ -124,13 +136,16 @@ def run_unit(ctx, unit):
         data = "\n".join(jm.dumps(r) for r in recs).encode()
         sorts = SORTS[unit["sort"]]
         combos = [(S, T, m) for S in range(7) for T in [None] + list(range(7)) for m in MODES]
-        if "focus" in unit:
-            pass
-        judge(ctx, unit, data, pipeline_args(sorts, []), combos)
+        pieces = None
+        if unit.get("files") and len(recs) >= 1:
+            texts = [jm.dumps(r).encode() for r in recs]
+            cut = unit["files"] % (len(texts) + 1)
+            pieces = [b"\n".join(texts[:cut]), b"\n".join(texts[cut:])]
+        judge(ctx, unit, data, pipeline_args(sorts, []), combos, pieces)
     else:
         data = unit["input"]
         combos = [tuple(c) for c in unit["combos"]]
-        judge(ctx, unit, data, unit["args"], combos)
+        judge(ctx, unit, data, unit["args"], combos, unit.get("pieces"))
 
 
 def all_streams(maxlen):
@@ -162,8 +177,14 @@ def gen_random(rng):
     combos = []
     for _ in range(12):
         combos.append((rng.randint(0, 6), rng.choice([None, 0, 1, 2, 3, 4, 5, 6, 40]), rng.choice(MODES)))
-    rng.shuffle(args) if False else None
-    return {"kind": "random", "input": records.to_input(recs, rng), "args": args, "combos": combos, "groupkey": groupkey}
+    unit = {"kind": "random", "input": records.to_input(recs, rng), "args": args, "combos": combos, "groupkey": groupkey}
+    if rng.random() < 0.3:
+        texts = [jm.dumps(r).encode() for r in recs]
+        nf = rng.choice((1, 2, 2, 3))
+        cuts = sorted(rng.randint(0, len(texts)) for _ in range(nf - 1))
+        bounds = [0] + cuts + [len(texts)]
+        unit["pieces"] = [b"\n".join(texts[bounds[i]:bounds[i + 1]]) for i in range(nf)]
+    return unit
 
 
 def worker(ctx):
@@ -181,6 +202,8 @@ def worker(ctx):
                 st.count("exhaustive_incomplete")
                 return
             unit = {"kind": "exhaustive", "stream": stream, "sort": si}
+            if idx % 5 == 0:
+                unit["files"] = 1 + idx % 7       # delivered as two files, cut after (files mod (n+1)) records
             run_unit(ctx, unit)
             st.count("exhaustive_units")
             if idx < 40 and ctx.idx == 0:
@@ -200,7 +223,7 @@ def run(env):
     quick = env.tier == "quick"
     params = {"maxlen": 4 if quick else 5, "random_units": 150 if quick else 6000}
     stats = core.run_workers(__name__, "worker", PROP, env.tier, env.seed, env.driver, env.hooks_on,
-                             60 if quick else 900, params)
+                             150 if quick else 1200, params)
     complete = not stats.counters.get("exhaustive_incomplete")
     return core.finish(PROP, env.tier, env.seed, LEVEL, stats, env.t0, RULE, min_conclusive=500 if quick else 5000,
                        exhaustive=complete,
